@@ -1057,17 +1057,44 @@ def prove_pair(h, setup, pname, fn, cap=60):
             if vac == 'unsat':
                 rec['status'] = 'vacuous'
         return rec
-    # (1) cheap refutation attempts on slices: X, U, iv, Ubc pinned to seeded sample points, dt and the cotangents free in the replay
-    #     box (nearly ground queries).  A model found here is a model of the all-input query; it is replayed on the unmodified code.
+    # (1) cheap refutation attempts on slices: X, U, iv, Ubc are SUBSTITUTED by seeded sample points (dt and the cotangents stay free
+    #     in the replay box), which leaves small queries.  A model found here is a model of the all-input query; it is replayed on the
+    #     unmodified code (real helper vs real reference) and only a reproduced difference is recorded.
+    free = ('dt', 'av', 'vx')
     for k in range(3):
-        sliced = base + pins_of(o4_example(mat, onp.random.default_rng(h.seed + 100 + k)), free=('dt', 'av', 'vx')) + o4_box(c.inp, mat)
-        st2 = sym.solve([sym.tob(x) for x in sliced] + [atom.neg(1e-5)], 10, order=('nlsat', 'core'))[0]
-        if st2 == 'sat':
-            rec = finish(h.prove(name, sliced, atom, inputs=c.inp, concrete=concrete, cap=20, order=('nlsat', 'core'), check_vacuity=False,
-                                 note='counterexample found on slice %d (X, U, iv, Ubc pinned to a seeded sample point)' % k))
-            if rec['status'] == 'violated':
-                return rec
-            h.records.remove(rec)
+        pv = o4_example(mat, onp.random.default_rng(h.seed + 100 + k))
+        subst = []
+        for nm, val in zip(O4_NAMES, pv):
+            if nm not in free:
+                subst += [(v, sym.rat(float(x))) for v, x in zip(sym.flat(c.inp[nm]), onp.asarray(val).ravel())]
+        sub = lambda t: z3.simplify(z3.substitute(sym.toz(t) if not z3.is_bool(t) else t, *subst)) if sym.isz(t) else t
+        cons = [sub(sym.tob(x)) for x in base + o4_box(c.inp, mat)]
+        diffs = []
+        for x, y in zip(fa, fb):
+            d = sym.toz(sub(sym.toz(x))) - sym.toz(sub(sym.toz(y)))
+            diffs.append(z3.Or(d > sym.rat(1e-5), -d > sym.rat(1e-5)))
+        t1 = time.time()
+        st2, m2, sv2, _, _ = sym.solve(cons + [z3.Or(*diffs)], 10, order=('core', 'nlsat'))
+        if st2 != 'sat':
+            continue
+        vals = {}
+        for nm, val in zip(O4_NAMES, pv):
+            if nm in free:
+                arr = onp.empty(onp.shape(val), dtype=float)
+                af = arr.reshape(-1)
+                for i_, v in enumerate(sym.flat(c.inp[nm])):
+                    af[i_] = float(sym.model_value(m2, v))
+                vals[nm] = arr.tolist()
+            else:
+                vals[nm] = onp.asarray(val, dtype=float).tolist()
+        rr = h._replay(qn, atom, vals, concrete)
+        if rr.get('status') == 'violated':
+            rec = dict(query=qn, status=None, solver=sv2, time_s=round(time.time() - t0, 3), nonvacuous=True, model=vals,
+                       attempts=[vac_att, ('slice%d' % k, 'sat', round(time.time() - t1, 3))],
+                       note='counterexample found on slice %d (X, U, iv, Ubc substituted by a seeded sample point; dt and cotangents from the solver model)' % k)
+            rec.update(rr)
+            h.records.append(rec)
+            return rec
     # (2) the deciding query: all inputs free
     z3.set_param('memory_max_size', 6000)        # MB: a model search that explodes ends as `unknown` (inconclusive), not as a killed worker
     return finish(h.prove(name, base, atom, inputs=c.inp, concrete=concrete, cap=cap, order=('nlsat', 'core'), check_vacuity=False))
